@@ -151,6 +151,9 @@ def mul(a, b):
         return div(mul(a[1], b), a[2])
     if b[0] == 'div':
         return div(mul(a, b[1]), b[2])
+    for x, y in ((a, b), (b, a)):
+        if x == ('const', 'nan') and y[0] == 'call' and y[1] in ('zeros', 'ones') and len(y[2]) == 1 and not y[3]:
+            return ('call', 'full', (y[2][0], x), ())          # zeros(n) * nan is an all-NaN array: np.full(n, nan)
     fs = []
     for t in (a, b):
         fs.extend(t[1] if t[0] == 'mul' else [t])
@@ -307,6 +310,10 @@ def index(base, k):
         return (band if base[0] == 'band' else bor)([index(x, k) for x in base[1]])
     if base[0] == 'binv' and _pointwise_key(k):
         return binv(index(base[1], k))
+    if base[0] == 'not' and _pointwise_key(k) and base[1][0] == 'cmp':
+        return not_(index(base[1], k))
+    if base[0] == 'cmp' and base[1] == 'Eq' and _pointwise_key(k):      # element k of an element-wise (in)equality
+        return cmp_('Eq', *[x if scalar_value(x) else index(x, k) for x in base[2:4]])
     if base[0] in ('tuple', 'list') and isconst(k) and isinstance(k[1], int) and not isinstance(k[1], bool):
         if -len(base[1]) <= k[1] < len(base[1]):
             return base[1][k[1]]
@@ -395,7 +402,11 @@ def length(a):
         return length(a[1])
     if tag == 'map':
         return keylen(a[1])
-    if tag == 'call' and a[1] in ('zeros', 'ones') and a[2] and a[2][0][0] != 'tuple':
+    if tag == 'call' and a[1] in ('zeros', 'ones', 'full') and a[2] and a[2][0][0] != 'tuple':
+        return a[2][0]
+    if tag == 'call' and a[1] == 'interp' and a[2]:
+        return length(a[2][0])                   # np.interp returns one value per query point
+    if tag == 'call' and a[1] == 'arange' and len(a[2]) == 1 and not a[3]:
         return a[2][0]
     if tag == 'records':
         return length(a[1])
@@ -403,6 +414,10 @@ def length(a):
         return length(a[2][0][0])
     if tag in ('cmp0',):
         return length(a[2])
+    if tag in ('not', 'binv'):
+        return length(a[1])
+    if tag == 'cmp' and a[1] == 'Eq':
+        return length(a[3] if scalar_value(a[2]) else a[2])
     if tag == 'slice' and a[4] == NONE:
         lo, hi = a[2], a[3]
         if (lo == NONE or _nonneg_const(lo)) and (hi == NONE or _neg_const(hi)):
